@@ -209,6 +209,23 @@ class SearchInfoMonitor:
                     self._v(where, "stored-point-not-image", {"x": _f(xs[i]), "stored": y.tolist(), "image": img.tolist()})
                 else:
                     self.cache[id(it)] = (xs[i], kb, it)
+        # the two unevaluated end points carry stored points too: the images of 0 and of 1
+        for i in (0, n - 1):
+            try:
+                ye = items[i].GetY().floatVariables
+            except Exception:
+                ye = None
+            if ye is None:
+                continue
+            ye = np.asarray(ye, dtype=float)
+            c = self.cache.get(("end", i))
+            if c is None or c[0] != xs[i] or c[1] != ye.tobytes():
+                img = self.fresh.GetImage(float(xs[i]))
+                self.images_checked += 1
+                if ye.shape != img.shape or not np.array_equal(img, ye):
+                    self._v(where, "stored-point-not-image", {"x": _f(xs[i]), "stored": ye.tolist(), "image": img.tolist(), "what": "end point"})
+                else:
+                    self.cache[("end", i)] = (xs[i], ye.tobytes())
         # length of the last interval (right end point)
         if n >= 2:
             d = items[-1].delta
